@@ -36,6 +36,25 @@ pub fn long_mixed_string(ctx: &mut Ctx) -> String {
     out
 }
 
+/// A string of exactly `bytes` bytes built from `unit`-byte characters after an ASCII prefix of
+/// `shift` bytes (so that character boundaries fall on arbitrary offsets), padded with ASCII.
+pub fn exact_bytes_string(bytes: usize, unit: usize, shift: usize) -> String {
+    let ch = match unit {
+        2 => "\u{e9}",
+        3 => "\u{65e5}",
+        4 => "\u{1F600}",
+        _ => "q",
+    };
+    let mut out = "a".repeat(shift.min(bytes));
+    while out.len() + ch.len() <= bytes {
+        out.push_str(ch);
+    }
+    while out.len() < bytes {
+        out.push('b');
+    }
+    out
+}
+
 pub fn draw_string(ctx: &mut Ctx) -> String {
     if ctx.ch.chance("op.arg.strlong", 1, 12) {
         return long_mixed_string(ctx);
